@@ -98,7 +98,8 @@ Record tables := mkT {
   t_rearm_wait : bool;
   t_rearm_backend_wait : bool;
   t_h1_close_after_close : bool;   (* h1.rs: a response ended by the backend's close ends the client connection *)
-  t_h1_close_if_request_open : bool (* h1.rs: a final response to an unfinished request ends the client connection *)
+  t_h1_close_if_request_open : bool; (* h1.rs: a final response to an unfinished request ends the client connection *)
+  t_h1_head_gate : bool            (* h1.rs writable, Server position: nothing of a response is written before its head is complete *)
 }.
 
 (** * The hand mirror of the source (what the theorems are proved about) *)
@@ -161,7 +162,7 @@ Definition spec_known_codes : list N := [301; 302; 308; 400; 401; 404; 408; 421;
 Definition spec_tables : tables :=
   mkT spec_esd spec_connect 301 spec_ft spec_bt spec_end_arm
       [ESetState SUnlinked; EArm] [ESetState SUnlinked; EArm] spec_known_codes
-      3 true true true true true true true.
+      3 true true true true true true true true.
 
 (** * One stream and its frontend connection *)
 
@@ -492,8 +493,8 @@ Definition step (T : tables) (redir : option N) (sc : stream * conn) (i : input)
     end
   | IFrontWrite all =>
     if negb (armed c) then (s, c, []) else
-    (* H2 write_streams only touches a stream in main phase / terminated / error *)
-    if c_h2 c && negb (is_main_phase (s_phase s) || is_error (s_phase s)) then (s, set_arm c false (c_ev_w c), []) else
+    (* H2 write_streams, and h1.rs writable toward the client, only touch a response whose head is complete *)
+    if (c_h2 c || t_h1_head_gate T) && negb (is_main_phase (s_phase s) || is_error (s_phase s)) then (s, set_arm c false (c_ev_w c), []) else
     if s_pending s && match s_interim s with NoInterim => false | _ => true end then
       (* h1.rs writable (h2.rs handle_1xx_reset): a completely written 100 / 103 clears the
          response buffer and the exchange goes on; a 101 hands the session over to a pipe *)
